@@ -166,7 +166,7 @@ CHECKS["C09"] = dict(
     level_note="trusted: vlib.Best over the flushed multiset; watermark steering through the stub oracle's readMark (Done + VerifSync)",
     death_is_violation=True,
     quick=[dict(pkg="lvl", test="TestC09", shards=16, checks=260, timeout=1200, gomaxprocs=1)],
-    thorough=[dict(pkg="lvl", test="TestC09", shards=16, checks=1000, timeout=14400)],
+    thorough=[dict(pkg="lvl", test="TestC09", shards=16, checks=500, timeout=14400)],
 )
 
 _E1_GEN = ("rapid draws a whole Program: Config (SkipListMaxLevel {0,1,2,4,9,12}, SkipListP {0..0.9}, MemtableByteThreshold "
@@ -201,25 +201,25 @@ def _e1(prop, title, owns, nontriv, q_checks, t_checks, extra_assume=()):
             [dict(pkg="conc", test="Test" + prop + "Stress", shards=6, checks=(4 if prop == "C06" else 2), timeout=1200, gomaxprocs=8, parallel=6)] if prop in ("C05", "C06") else []),
         thorough=[dict(pkg="dbsm", test="Test" + prop, shards=16, checks=t_checks, timeout=14400),
                   dict(pkg="dbsm", test="Test" + prop, shards=16, checks=max(20, t_checks // 5), timeout=14400, env={"VERIF_FREE": "1"}, replay_tries=30)] + (
-            [dict(pkg="conc", test="Test" + prop + "Conc", race=True, shards=16, checks=25, timeout=14400, gomaxprocs=4)] if prop in ("C05", "C06", "C07") else []) + (
-            [dict(pkg="conc", test="Test" + prop + "Stress", shards=4, checks=8, timeout=14400, gomaxprocs=8, parallel=4)] if prop in ("C05", "C06") else []),
+            [dict(pkg="conc", test="Test" + prop + "Conc", race=True, shards=16, checks=15, timeout=14400, gomaxprocs=4)] if prop in ("C05", "C06", "C07") else []) + (
+            [dict(pkg="conc", test="Test" + prop + "Stress", shards=4, checks=5, timeout=14400, gomaxprocs=8, parallel=4)] if prop in ("C05", "C06") else []),
     )
 
 CHECKS["C01"] = _e1("C01", "Generated-history search against an exact model: every read in a fresh transaction must return the latest committed write, at whatever gate the flusher stands.",
     "reads in a transaction whose snapshot is the latest commit (after every commit a fresh View reads the keys just written, every 8th commit and at the end the whole pool, again after the flusher went idle) must equal the model's latest state.",
-    "the program read a key whose newest version had left the memtable (its memtable was flushed) AND read a deleted key whose tombstone had been flushed.", 110, 450)
+    "the program read a key whose newest version had left the memtable (its memtable was flushed) AND read a deleted key whose tombstone had been flushed.", 110, 300)
 CHECKS["C02"] = _e1("C02", "Generated histories with close/reopen cycles: before/after differential plus model agreement for post-reopen writes.",
     "the full-pool read before Close must equal the full-pool read after Open (differential, independent of the model); fresh reads of keys written after a reopen must return the new data (also after later flushes, compactions, reopens); Open/Close must not fail or panic.",
-    "a reopen on a directory that held tables AND a post-reopen overwrite of a pre-reopen key read back after it left the memtable.", 110, 450)
+    "a reopen on a directory that held tables AND a post-reopen overwrite of a pre-reopen key read back after it left the memtable.", 110, 300)
 CHECKS["C05"] = _e1("C05", "Generated interleavings with long-lived readers: every Get must equal snapshot-at-Begin overlaid with own writes; the same history is re-decided by porcupine as a split history.",
     "every Get in any live transaction (snapshot fixed at Begin, own buffer on top), re-read after every flusher step; dirty reads; the recorded history's split form (reads at Begin, writes at Commit) must be linearizable.",
-    "a transaction read, after its newer version had been flushed and a compaction had happened, a key that another transaction overwrote or deleted after its Begin.", 45, 600)
+    "a transaction read, after its newer version had been flushed and a compaction had happened, a key that another transaction overwrote or deleted after its Begin.", 45, 400)
 CHECKS["C06"] = _e1("C06", "Generated interleavings incl. anomaly templates; the history of committed + read-only transactions must have a real-time-respecting serial order (porcupine), cross-checked by the exact model.",
     "porcupine verdict on the history (Unknown = inconclusive, counted), dirty reads.",
-    "overlapping read-write transactions with intersecting read/write sets of which at least one was refused (or would have been an anomaly).", 60, 800)
+    "overlapping read-write transactions with intersecting read/write sets of which at least one was refused (or would have been an anomaly).", 60, 500)
 CHECKS["C07"] = _e1("C07", "Exact two-sided oracle for the Commit result in generated interleavings (boundaries: commit right before Begin, buffer reads, absent keys, deletes, rw transactions without writes, long histories).",
     "Commit/Update error vs the model's prediction in both directions (refused iff a store-read key was written by a transaction that committed after the snapshot).",
-    "a predicted-and-observed conflict AND a commit that succeeds although a concurrent transaction committed other keys.", 160, 1500)
+    "a predicted-and-observed conflict AND a commit that succeeds although a concurrent transaction committed other keys.", 160, 1000)
 CHECKS["C08"] = _e1("C08", "Generated abandonment (Discard, conflict, failing Update closure) and misuse, followed by flushes, compactions and restarts; token identity makes leaked writes directly visible.",
     "any read returning a token of a transaction that never committed; misuse calls must return the documented error (any applicable one) and Get not-found; Update must return the closure's own error; View/Update after Close must return ErrDBClosed without running the closure.",
     "an abandoned write set (discard with writes / failed closure after writes) in a program that flushed and then reopened or compacted.", 110, 1200)
@@ -255,7 +255,7 @@ CHECKS["C03"] = _e2("C03", "Systematic crash injection: all crash points of ever
     "the image still holds a wal (acknowledged data not yet in a table) or the crash fell into flush / compaction / recovery / Close.", 4, 6)
 CHECKS["C04"] = _e2("C04", "Crash injection with multi-key transactions; all-or-nothing oracle on the transaction in flight at the crash.",
     "Judged: for the transaction whose Commit had been called but had not returned at the crash, the keys on which its effect is observable read its new value on all of them or on none (workloads are biased to 2..5-key transactions; thresholds make commits straddle memtable rotations).",
-    "the crash fell while the Commit of a transaction that wrote >= 2 keys was in progress (any goroutine's operation between its CALL and ACK).", 6, 30)
+    "the crash fell while the Commit of a transaction that wrote >= 2 keys was in progress (any goroutine's operation between its CALL and ACK).", 6, 20)
 CHECKS["C14"] = _e2("C14", "Crash injection plus loss of unsynced tails: every image whose files have bytes beyond their last completed fsync is additionally cut.",
     "Judged: the C03 oracles (a)(b)(c)(d) on images in which files with bytes written after their last completed fsync were truncated: to the synced length (all such files at once), and per file to synced+{0,1,7,8,9}, written-{1,2,8,9}, the middle and 8 drawn positions (thorough: every length when the tail is <= 256 bytes). A failure counts for C14 only if the uncut image passes.",
     "at least one byte was cut (always, by construction).", 2, 3)
@@ -284,8 +284,8 @@ CHECKS["C12"] = dict(
     level_note="trusted: Go race detector, porcupine, the history recording in conc_test.go",
     quick=[dict(pkg="conc", test="TestC12Conc", race=True, shards=8, checks=10, timeout=1800, gomaxprocs=4, parallel=8),
            dict(pkg="conc", test="TestC12Stress", shards=6, checks=2, timeout=1200, gomaxprocs=8, parallel=6)],
-    thorough=[dict(pkg="conc", test="TestC12Conc", race=True, shards=16, checks=35, timeout=14400, gomaxprocs=4),
-              dict(pkg="conc", test="TestC12Stress", shards=4, checks=8, timeout=14400, gomaxprocs=8, parallel=4)],
+    thorough=[dict(pkg="conc", test="TestC12Conc", race=True, shards=16, checks=20, timeout=14400, gomaxprocs=4),
+              dict(pkg="conc", test="TestC12Stress", shards=4, checks=5, timeout=14400, gomaxprocs=8, parallel=4)],
 )
 
 CHECKS["C15"] = dict(
